@@ -438,10 +438,18 @@ func VerifK18aVocabulary() {
 	}
 	vt.Reach("product-done")
 	vt.Assert(n == len(v.Objs)*len(v.Rels)*len(v.Users), "vocabulary product not covered")
-	vt.Assert(bad[0] == 0, "ValidateTupleForWrite accepted a tuple the model does not allow")
-	vt.Assert(bad[1] == 0, "ValidateTupleForWrite rejected a tuple the model allows")
-	vt.Assert(bad[2] == 0, "FilterInvalidTuples keeps a stored tuple the model does not allow")
-	vt.Assert(bad[3] == 0, "FilterInvalidTuples drops a stored tuple the model allows")
+	verifK18Report(&bad)
+}
+
+// verifK18Report asserts that no disagreement was counted. Each assertion carries an unconstrained mask
+// bit: a concretely false assertion would end the path and hide the ones after it; with the mask the
+// engine reports the violation (mask = false), assumes the mask and goes on to the next counter, so every
+// kind of disagreement is reported (and replayed) on its own.
+func verifK18Report(bad *[4]int) {
+	vt.Assert(bad[0] == 0 || vt.Bool("mask0"), "ValidateTupleForWrite accepted a tuple the model does not allow")
+	vt.Assert(bad[1] == 0 || vt.Bool("mask1"), "ValidateTupleForWrite rejected a tuple the model allows")
+	vt.Assert(bad[2] == 0 || vt.Bool("mask2"), "FilterInvalidTuples keeps a stored tuple the model does not allow")
+	vt.Assert(bad[3] == 0 || vt.Bool("mask3"), "FilterInvalidTuples drops a stored tuple the model allows")
 }
 
 // ---- K18b: one position of the tuple is an arbitrary byte string ----
@@ -609,10 +617,7 @@ func VerifK18dAlphabet() {
 	}
 	vt.Reach("enumerated")
 	vt.Assert(n > 0, "nothing enumerated")
-	vt.Assert(bad[0] == 0, "ValidateTupleForWrite accepted a tuple the model does not allow")
-	vt.Assert(bad[1] == 0, "ValidateTupleForWrite rejected a tuple the model allows")
-	vt.Assert(bad[2] == 0, "FilterInvalidTuples keeps a stored tuple the model does not allow")
-	vt.Assert(bad[3] == 0, "FilterInvalidTuples drops a stored tuple the model allows")
+	verifK18Report(&bad)
 }
 
 // ---- K18c: condition context of a conditioned tuple ----
